@@ -1515,6 +1515,43 @@ def _rule7(model, rep):
         r.extra['callees_followed'] = sorted(seen)
 
 
+def _rule8(model, rep):
+    """only the holder gives the lock up (added after seeded change C13-9: a lease timer unlocked a live holder after 30
+    minutes; the holder was never told, the next waiter was granted and two clients believed they held the lock)"""
+    from . import shared
+
+    prog, cg = model.prog, model.cg
+    W = 'dawgie.db.shelve.comms.Worker'
+    UNLOCK = 'dawgie.context.unlock_db'
+    with rep.rule(
+        'R-C13-8',
+        'the lock bit is cleared only on behalf of its holder: every call chain into context.unlock_db starts in the release request (Worker._do_release) or in the loss of the owning connection (Worker.connectionLost) - no timer, no other request, no other module',
+        floor=1,
+        breaks='the lock is taken away from a client that still believes it holds it: the next waiter is granted and mutual exclusion is lost',
+    ) as r:
+        allowed = {W + '._do_release', W + '.connectionLost'}
+        direct = sorted({e.src.qname for e in cg.callers(UNLOCK)})
+        if not direct:
+            raise AnalysisError('no caller of dawgie.context.unlock_db found')
+        for q in direct:
+            r.instance()
+            if q in prog.funcs:
+                rep.analysed(prog.funcs[q])
+            ok = q in allowed or shared.only_called_from(cg, q, allowed)
+            culprits = []
+            if not ok:
+                for e in cg.callers(q):
+                    if e.src.qname not in allowed and not shared.only_called_from(cg, e.src.qname, allowed):
+                        culprits.append(f'{e.src.qname} ({e.kind})')
+            r.check(
+                ok,
+                f'{q}:unlock-on-behalf-of-the-holder',
+                where(prog.funcs[q]) if q in prog.funcs else '',
+                'reached only from the release request / the loss of the owning connection',
+                f'{q} clears the lock bit and is reached from {sorted(set(culprits)) or "an entry point of its own"}: the lock can be released without the holder asking for it or being gone',
+            )
+
+
 def check(ctx):
     rep = Report(
         PID,
@@ -1553,6 +1590,7 @@ def check(ctx):
     _rule5(model, rep)
     _rule6(model, rep)
     _rule7(model, rep)
+    _rule8(model, rep)
     for f in model.sink.funcs.values():
         rep.analysed(f)
     return rep
@@ -1560,6 +1598,7 @@ def check(ctx):
 
 _CF = 'db/shelve/comms.py'
 VARIANTS = [
+    V('status poll frees a lock it does not own', 'B', 'db/shelve/comms.py', 'Worker._get_db_lock_status', 'if not dawgie.context.db_lock:', 'if self.__has_lock is None:\n            self._unlock_db()\n        if not dawgie.context.db_lock:', 'R-C13-8'),
     V('lock view drops the begin record of a closed phase', 'B', 'db/lockview.py', 'TaskLockEngine.add_task', 'self.queue[(name, action)] = TaskLock(name, action)', 'del self.queue[(name, None)]\n        self.queue[(name, action)] = TaskLock(name, action)', 'R-C13-7'),
     V('lock view forgets a closed phase tolerantly', 'N', 'db/lockview.py', 'TaskLockEngine.add_task', 'self.queue[(name, action)] = TaskLock(name, action)', 'self.queue.pop((name, None), None)\n        self.queue[(name, action)] = TaskLock(name, action)', None),
     # ---- breaking
